@@ -92,7 +92,18 @@ func diskState(dir string, tr *tracker) string {
 		}
 		fs[p] = readFile(filepath.Join(dir, fmt.Sprintf("f%d.csv", p)))
 	}
-	return "disk:" + strings.Join(fs, ";")
+	// the tables this transaction holds for update, as visible to every other process: their lock files
+	var held []string
+	for p := 0; p < nFiles; p++ {
+		if _, err := os.Stat(filepath.Join(dir, fmt.Sprintf(".f%d.csv.lock", p))); err == nil {
+			held = append(held, strconv.Itoa(p))
+		}
+	}
+	locks := "-"
+	if len(held) > 0 {
+		locks = strings.Join(held, ",")
+	}
+	return "disk:" + strings.Join(fs, ";") + "#L:" + locks
 }
 
 // inodeOf identifies the file object behind a table path: a COMMIT that rewrites a table renames a new
@@ -255,6 +266,32 @@ func oneHistory(g *hc.Gen, o *hc.Out, scratch, bin string, h int) {
 			case c < 5:
 				pickFile(true)
 				line, sql = fmt.Sprintf("c01.select %d", p), fmt.Sprintf("SELECT v FROM `f%d.csv`", p)
+			case c < 7 && g.Intn(3) == 0:
+				// FOR UPDATE reaches every table of the FROM clause
+				pickFile(true)
+				q := g.Intn(nFiles)
+				for k := 0; k < 8 && (q == p || !tr.exists[q]); k++ {
+					q = g.Intn(nFiles)
+				}
+				if q == p {
+					continue
+				}
+				form := g.Pick("JOIN", "CROSS", "COMMA")
+				line = fmt.Sprintf("c01.selectfu2 %d %d", p, q)
+				switch form {
+				case "JOIN":
+					sql = fmt.Sprintf("SELECT a.v FROM `f%d.csv` a JOIN `f%d.csv` b ON a.v = b.v FOR UPDATE", p, q)
+				case "CROSS":
+					sql = fmt.Sprintf("SELECT a.v FROM `f%d.csv` a CROSS JOIN `f%d.csv` b WHERE a.v = b.v FOR UPDATE", p, q)
+				default:
+					sql = fmt.Sprintf("SELECT a.v FROM `f%d.csv` a, `f%d.csv` b WHERE a.v = b.v FOR UPDATE", p, q)
+				}
+				if tr.exists[p] {
+					tr.locked[p] = true
+					if tr.exists[q] {
+						tr.locked[q] = true
+					}
+				}
 			case c < 7:
 				pickFile(true)
 				line, sql = fmt.Sprintf("c01.selectfu %d", p), fmt.Sprintf("SELECT v FROM `f%d.csv` FOR UPDATE", p)
